@@ -68,13 +68,49 @@ class WN(NativeModel):
         self.controls_added = []
         self.controls_discarded = []
 
+    generic_link = None   # callable(name SV) -> SymObj for names the case did not declare (heap-as-functions view)
+    generic_node = None
+
     def _find(self, table, name):
         for nm, o in table:
             if isinstance(name, SV) and isinstance(nm, SV) and nm.t.eq(name.t):
                 return o
             if not isinstance(name, SV) and not isinstance(nm, SV) and nm == name:
                 return o
+        gen = self.generic_link if table is self.links else self.generic_node
+        if gen is not None and isinstance(name, SV):
+            return gen(name)
         raise Unsupported("WN stub: lookup of a name that the case did not declare: %r" % (name,))
+
+    def _of(self, table, *classes):
+        return [(nm, o) for nm, o in table if issubclass(getattr(o, "cls", type(o)), classes)]
+
+    def junctions(self):
+        return self._of(self.nodes, Junction)
+
+    def tanks(self):
+        return self._of(self.nodes, Tank)
+
+    def reservoirs(self):
+        return self._of(self.nodes, Reservoir)
+
+    def pipes(self):
+        return self._of(self.links, Pipe)
+
+    def head_pumps(self):
+        return self._of(self.links, HeadPump)
+
+    def power_pumps(self):
+        return self._of(self.links, PowerPump)
+
+    def valves(self):
+        return self._of(self.links, PRValve, PSValve, FCValve, TCValve)
+
+    def all_links(self):
+        return list(self.links)
+
+    def all_nodes(self):
+        return list(self.nodes)
 
     def get_node(self, name):
         return self._find(self.nodes, name)
@@ -88,6 +124,8 @@ class WN(NativeModel):
     def get_link(self, name):
         return self._find(self.links, name)
 
+    # `links`/`nodes` are data attributes of the stub; the real generators wn.links()/wn.nodes() are reached
+    # through these aliases by the contracts that need them (see contracts/c01_results.py)
     def get_links_for_node(self, name, flag="ALL"):
         key = name.t.get_id() if isinstance(name, SV) else name
         flag = flag.upper()
@@ -133,3 +171,116 @@ def written_value(mapobj, key):
         if isinstance(k, SV) and isinstance(key, SV) and k.t.eq(key.t):
             return v
     return None
+
+
+class WN2(NativeModel):
+    """Contract view of a WaterNetworkModel for functions that iterate over it (wn.links(), wn.tanks(), ...).
+
+    The *independent-iteration rule*: a case declares the element(s) under test; each typed iterator yields the
+    declared elements of that type, so a loop body is verified once for an arbitrary element. Elements the case
+    did not declare are reached through get_node/get_link as generic objects whose fields are uninterpreted
+    functions of the name (heap-as-functions). Assumes RegInv (C14): the iterators enumerate exactly the
+    registered elements, get_links_for_node enumerates in(n)/out(n) exactly once.
+    """
+
+    def __init__(self, options=None, sim_time=0, prev_sim_time=None, generic_link=None, generic_node=None):
+        self._N = []
+        self._L = []
+        self.options = options
+        self.sim_time = sim_time
+        self._prev_sim_time = prev_sim_time
+        self.inlet = {}
+        self.outlet = {}
+        self.generic_link = generic_link
+        self.generic_node = generic_node
+
+    def declare_node(self, name, obj):
+        self._N.append((name, obj))
+
+    def declare_link(self, name, obj):
+        self._L.append((name, obj))
+
+    def _find(self, table, name, gen):
+        for nm, o in table:
+            if isinstance(name, SV) and isinstance(nm, SV) and nm.t.eq(name.t):
+                return o
+            if not isinstance(name, SV) and not isinstance(nm, SV) and nm == name:
+                return o
+        if gen is not None and isinstance(name, SV):
+            return gen(name)
+        raise Unsupported("WN2 stub: lookup of a name that the case did not declare: %r" % (name,))
+
+    def get_node(self, name):
+        return self._find(self._N, name, self.generic_node)
+
+    def get_link(self, name):
+        return self._find(self._L, name, self.generic_link)
+
+    def _of(self, table, *classes):
+        return [(nm, o) for nm, o in table if issubclass(getattr(o, "cls", type(o)), classes)]
+
+    def nodes(self):
+        return list(self._N)
+
+    def links(self):
+        return list(self._L)
+
+    def junctions(self):
+        return self._of(self._N, Junction)
+
+    def tanks(self):
+        return self._of(self._N, Tank)
+
+    def reservoirs(self):
+        return self._of(self._N, Reservoir)
+
+    def pipes(self):
+        return self._of(self._L, Pipe)
+
+    def head_pumps(self):
+        return self._of(self._L, HeadPump)
+
+    def power_pumps(self):
+        return self._of(self._L, PowerPump)
+
+    def pumps(self):
+        return self._of(self._L, HeadPump, PowerPump)
+
+    def valves(self):
+        return self._of(self._L, PRValve, PSValve, FCValve, TCValve)
+
+    def get_links_for_node(self, name, flag="ALL"):
+        key = name.t.get_id() if isinstance(name, SV) else name
+        flag = flag.upper()
+        if flag == "INLET":
+            return self.inlet[key]
+        if flag == "OUTLET":
+            return self.outlet[key]
+        raise Unsupported("WN2 stub: get_links_for_node flag %r" % flag)
+
+
+def leaf_pmap(name, dom, label=None):
+    """Map over names whose entries are aml Var/Param boxes (one box per key)."""
+    f = fn(name, NameSort, R)
+    cache = {}
+
+    def get(k):
+        key = k.t.get_id()
+        if key not in cache:
+            cache[key] = Leaf(SV(f(k.t), "real"))
+        return cache[key]
+    return SymMap(lambda k: dom(k.t), get, label=label or name)
+
+
+def list_map(label):
+    """dict name -> python list (results lists of save_results): one list per key."""
+    cache = {}
+
+    def get(k):
+        key = k.t.get_id() if isinstance(k, SV) else k
+        if key not in cache:
+            cache[key] = []
+        return cache[key]
+    m = SymMap(lambda k: z3.BoolVal(True), get, label=label)
+    m.cache = cache
+    return m
